@@ -259,7 +259,7 @@ func randomConst(rnd *rand.Rand, depth int) any {
 	case k == 2:
 		return []any{"c", []string{"/a", "/b", "/a/b", "/1"}[rnd.Intn(4)]}
 	case k == 3:
-		return []any{"f", []string{"1", "1.5", "-0.25"}[rnd.Intn(3)]}
+		return []any{"f", []string{"1", "1.5", "-0.25", "NaN", "+Inf", "-0"}[rnd.Intn(6)]}
 	case k == 4:
 		return []any{"y", []string{"a", "ab"}[rnd.Intn(2)]}
 	case k == 5 && depth > 0:
